@@ -329,6 +329,23 @@ def kept_parser_renamed_world(ctx, W, d2, p2, path, multi, agents, want_states, 
     except Exception as e:
         raise Violation("C10/exported-trajectory-rejected", site, f"{type(e).__name__}: {e}")
     compare_obs(ctx, obs, multi, want_states, want_steps, None, site)
+    if f.chance(1, 2):
+        # fault in between: a reading that fails half-way (a state with a component the domain does not know, after
+        # legal ones); the caller catches the error and keeps the parser
+        text0 = fs.read_real_bytes(path).decode("utf-8")
+        cut = text0.rfind("(:state")
+        if cut > 0:
+            end = text0.find("\n", cut)
+            line = text0[cut:end if end > 0 else len(text0)].rstrip()
+            if line.endswith(")"):
+                bad_text = text0[:cut] + line[:-1] + " (no-such-predicate zz))" + text0[cut + len(line):]
+                pathb = ctx.rundir / "traj-malformed.trajectory"
+                fs.write_real(pathb, bad_text)
+                try:
+                    kept.parse_trajectory(pathb, executing_agents=agents if multi else None)
+                    ctx.probes["malformed_trajectory_accepted"] += 1
+                except Exception:
+                    ctx.faults["trajectory_reading_aborted"] += 1
     old = sorted(W.P["objects"])[f.draw(len(W.P["objects"]))]
     new = "zren"
     r = lambda x: new if x == old else x
